@@ -1,4 +1,5 @@
 import TantivyModel.Proofs.WriterHistory
+import TantivyModel.Proofs.WriterMergeMeta
 /-!
 # C02 — A commit publishes exactly the sequential effect of the operations before it
 
@@ -114,6 +115,30 @@ theorem C02_commit_refines_replay_history [DecidableEq α] (n : Nat) (es : List 
   (C02_commit_refines_replay_partial n es s hrun
     (okRun2_of_okHist (WState.init n) SpecState.init HFlags.init es (inv_init n) (minv_init n) (flag_init n) hh)).1
 
+/-- **C02_history_verdict_decides.**  The executable scan `okHistB` - what the driver answers to
+`C02 clean …`, on which the harness bases every attribution to a known finding - decides exactly
+the hypothesis of `C02_commit_refines_replay_history`; hence whenever the driver says `clean`, the
+published documents of every run of the model with that history are the sequential replay. -/
+theorem C02_history_verdict_decides [DecidableEq α] (n : Nat) (es : List (Event α)) (s : WState α)
+    (hrun : run (WState.init n) es = some s) :
+    (okHistB HFlags.init (history es) = true ↔ okHist HFlags.init (history es))
+    ∧ (okHistB HFlags.init (history es) = true → List.Perm (published s) (replay (history es)).committed) :=
+  ⟨okHistB_iff _ _, fun h => C02_commit_refines_replay_history n es s hrun ((okHistB_iff _ _).mp h)⟩
+
+/-- F10 at the level of one segment (two producer threads; reproduced on the real code by the
+forced schedules of the harness): thread A stamps a batch `[add x (5), delete x (6), add y (7)]`
+and queues its delete, thread B stamps `add z (9)` later but is sent first; the worker starts the
+segment with z, `skip_to(9)` passes the delete, then A's adds join the segment: `apply_deletes`
+leaves x alive although `5 < 6` - the hypothesis of `BuildOK` (the skipped deletes are older than
+every document of the segment), which atomic API calls guarantee, fails. -/
+theorem C02_producer_race_counterexample :
+    let log : List (DelOp Nat) := [⟨6, fun d => d == 10⟩]
+    let c := skipTo 9 log 0
+    let sg : Seg Nat := { id := 0, docs := mkDocs [(12, 9), (10, 5), (11, 7)], cursor := c }
+    c = 1 ∧ (finalize log sg).docs.map (fun d => (d.doc, d.alive)) = [(12, true), (10, true), (11, true)]
+      ∧ dead log (10, 5) = true := by
+  decide
+
 /-- **merges are invisible**: under the same hypotheses no internal event — in particular no
 `mergeStart` / `mergeEnd` — changes what a fresh searcher shows -/
 theorem C02_merges_invisible [DecidableEq α] (n : Nat) (es : List (Event α)) (e : Event α) (s s' : WState α) (r : Nat)
@@ -217,6 +242,238 @@ theorem C02_opstamp_monotone_partial [DecidableEq α] (n : Nat) (es : List (Even
     exact ⟨hinv.pairsLt, hinv.logLt, rfl, rfl, rfl⟩
   · cases hc
 
+/-! ## the model evaluates the comparisons found in the source -/
+
+/-- **C02_extracted_guards.**  The four opstamp comparisons of the delete machinery, as the
+extractor reads them from the Rust source on every run (`Gen/WriterGuards.lean`), are the ones the
+refinement proof is made for: `doc_opstamp < delete_opstamp` (`is_deleted`),
+`operation.opstamp < target` (`skip_to`), `delete_op.opstamp > target` (the `break` of
+`compute_deleted_bitset`) and `delete_operation.opstamp < committed_opstamp` (the catch-up of
+`end_merge`).  The executable model uses the extracted operators; a change of one of them (e.g.
+`<=` in the catch-up: a re-opened writer's first delete, stamped with the commit opstamp, would be
+published by `end_merge`) makes this theorem - and the equations in `Proofs/Writer.lean` every
+other theorem rests on - fail to check. -/
+theorem C02_extracted_guards :
+    Gen.IS_DELETED_CMP = 0 ∧ Gen.SKIP_TO_CMP = 0 ∧ Gen.COMPUTE_DELETED_BREAK_CMP = 2 ∧ Gen.END_MERGE_CATCHUP_CMP = 0
+    ∧ (∀ a b, isDeletedGuard a b = decide (a < b)) ∧ (∀ a b, behindGuard a b = decide (a < b))
+    ∧ (∀ a b, breakGuard a b = decide (a > b)) ∧ (∀ a b, catchUpGuard a b = decide (a < b)) :=
+  ⟨rfl, rfl, rfl, rfl, isDeletedGuard_eq, behindGuard_eq, breakGuard_eq, catchUpGuard_eq⟩
+
+/-- with `<=` in the catch-up guard a delete stamped exactly with the commit opstamp is applied to
+the merged segment (what the seeded change C02-C does), with `<` it is not -/
+example : cmpCode 1 5 5 = true ∧ cmpCode Gen.END_MERGE_CATCHUP_CMP 5 5 = false := by decide
+
+/-! ## `advance_deletes` with its bookkeeping (`delete_opstamp`, "already up to date") -/
+
+/-- **C02_advanceDeletes_early_return_only.**  `advance_deletes(segment, entry, target)` as it is
+(`advanceDeletes`: early return when the segment's delete file was written for this very target,
+new delete file when more documents are deleted than the meta records) differs from its core
+(`advance`: `compute_deleted_bitset` from the cursor) by nothing but the early return: if
+`delete_opstamp ≠ target` both leave the same documents, alive bits and cursor; if
+`delete_opstamp = target` nothing at all happens (the cursor stays). -/
+theorem C02_advanceDeletes_early_return_only [DecidableEq α] (log : List (DelOp α)) (t : Nat) (sg : Seg α) :
+    (sg.delOp ≠ some t → sameCore (advanceDeletes log t sg) (advance log t sg))
+    ∧ (sg.delOp = some t → advanceDeletes log t sg = sg) :=
+  ⟨advanceDeletes_core log t sg, advanceDeletes_skip log t sg⟩
+
+/-- **C02_mergeSegsD_committed.**  On the states the refinement invariant allows - every source of
+a merge of committed segments sits exactly at the last commit `B` (`CommittedAt`, part of
+`C02_cursor_discipline_invariant`) - `merge` with the real `advance_deletes` (early return
+included, whatever the `delete_opstamp`s of the sources) produces exactly the merged segment of
+the model's `mergeSegs`: the bookkeeping is invisible, which is why the state machine may use the
+core.  (Without that hypothesis it is not: `C02_merge_counterexample_reopen_lost`.) -/
+theorem C02_mergeSegsD_committed [DecidableEq α] (log : List (DelOp α)) (B newId : Nat) (srcs : List (Seg α))
+    (h : ∀ sg ∈ srcs, CommittedAt log B sg) :
+    mergeSegsD log B newId srcs = mergeSegs log B newId srcs := by
+  apply mergeSegsD_eq_of_fields
+  intro sg hsg
+  have a := advanceDeletes_committedAt log B sg (h sg hsg)
+  rw [advance_committedAt log B sg (h sg hsg)]
+  exact a
+
+/-- the same for sources none of which carries `delete_opstamp = target` (every merge of
+uncommitted segments: their target is a fresh stamp) -/
+theorem C02_mergeSegsD_fresh_target [DecidableEq α] (log : List (DelOp α)) (t newId : Nat) (srcs : List (Seg α))
+    (h : ∀ sg ∈ srcs, sg.delOp ≠ some t) :
+    mergeSegsD log t newId srcs = mergeSegs log t newId srcs := by
+  apply mergeSegsD_eq_of_fields
+  intro sg hsg
+  obtain ⟨_, h2, h3⟩ := advanceDeletes_core log t sg (h sg hsg)
+  exact ⟨h2, h3⟩
+
+/-- F8, second manifestation (found by this check, reproduced on the real code): the last commit
+(opstamp 5) deleted document 3 in segment B (`delete_opstamp = 5`); the writer is re-created and its
+first operation, stamped 5 as well, deletes document 4 of B; a merge of A and B with target 5
+advances A past that delete, SKIPS B ("already up to date") and gives the merged segment A's
+cursor: document 4 is alive in the merged segment and the delete is behind its cursor - lost for
+good.  (The core `mergeSegs` would instead remove 4 at once: the first manifestation.) -/
+theorem C02_merge_counterexample_reopen_lost :
+    let log : List (DelOp Nat) := [⟨5, fun d => d == 4⟩]
+    let a : Seg Nat := { id := 0, docs := [⟨1, 1, true⟩, ⟨2, 2, true⟩], cursor := 0 }
+    let b : Seg Nat := { id := 1, docs := [⟨3, 3, false⟩, ⟨4, 4, true⟩], cursor := 0, delOp := some 5, metaDead := 1 }
+    mergeCommitted Gen.END_MERGE_CATCHUP_CMP log 5 [a, b] = some ([1, 2, 4], 1)
+      ∧ (mergeSegs log 5 0 [a, b]).map (fun M => (aliveDocs M, M.cursor)) = some ([1, 2], 1) := by
+  decide
+
+/-- the corner next to it where the code is right, and what the seeded change C02-C breaks: both
+sources carry `delete_opstamp = 5`, so `merge` applies nothing and the merged segment keeps the
+cursor before the delete; with the extracted catch-up guard (`<`) `end_merge` leaves it alone -
+document 4 stays published until a commit; with `<=` (code 1) `end_merge` applies the uncommitted
+delete and publishes it. -/
+theorem C02_catchup_guard_le_counterexample :
+    let log : List (DelOp Nat) := [⟨5, fun d => d == 4⟩]
+    let a : Seg Nat := { id := 0, docs := [⟨1, 1, false⟩, ⟨2, 2, true⟩], cursor := 0, delOp := some 5, metaDead := 1 }
+    let b : Seg Nat := { id := 1, docs := [⟨3, 3, false⟩, ⟨4, 4, true⟩], cursor := 0, delOp := some 5, metaDead := 1 }
+    mergeCommitted Gen.END_MERGE_CATCHUP_CMP log 5 [a, b] = some ([2, 4], 0)
+      ∧ mergeCommitted 1 log 5 [a, b] = some ([2], 1) := by
+  decide
+
+/-! ## the delete-cursor discipline, for every segment and every merged entry -/
+
+/-- **C02_cursor_discipline_invariant.**  In every run as in `C02_commit_refines_replay_partial`:
+* every finished segment (waiting for the updater, uncommitted, committed) satisfies `SegOK`: its
+  alive bits are exactly the opstamp rule for the deletes *before* its cursor, and every delete at
+  or after its cursor is younger than all its documents (so applying it without per-document
+  opstamps is the rule);
+* every segment under construction satisfies `BuildOK` (its `skip_to` skipped only deletes older
+  than all its documents);
+* every committed segment's cursor sits exactly at the last commit (`CommittedAt`);
+* every merged entry in flight whose sources are still registered is a finished segment in that
+  sense, all its documents alive, **its cursor the common cursor of its advanced sources**
+  (`merge` clones the cursor after `advance_deletes`) - the documents it holds are exactly the
+  source documents alive under the deletes before that cursor. -/
+theorem C02_cursor_discipline_invariant [DecidableEq α] (n : Nat) (es : List (Event α)) (s : WState α)
+    (hrun : run (WState.init n) es = some s) (hok : okRun2 (WState.init n) es) :
+    (∀ sg ∈ s.inflight ++ s.uncommitted ++ s.committed, SegOK s.log sg)
+    ∧ (∀ w ∈ s.workers, ∀ sg, w.seg = some sg → BuildOK s.log sg ∧ sg.cursor = w.cur)
+    ∧ (∀ sg ∈ s.committed, CommittedAt s.log s.metas.opstamp sg)
+    ∧ (∀ m ∈ s.merges, present m.ids (s.uncommitted ++ s.committed) → ∀ M, m.result = some M →
+        SegOK s.log M ∧ (∀ d ∈ M.docs, d.alive = true)
+        ∧ List.Perm (segPairs M) (((srcsOf m.ids (s.uncommitted ++ s.committed)).flatMap segPairs).filter
+            (fun p => !dead (s.log.take M.cursor) p))) := by
+  obtain ⟨hw, hm⟩ := inv_run2 (WState.init n) s SpecState.init es (inv_init n) (minv_init n) hok hrun
+  refine ⟨hw.segs, fun w hw' => (hw.workers w hw').2.2, hm.cis, ?_⟩
+  intro m hmem hp M hr
+  obtain ⟨c, _, _, g⟩ := hm.good m hmem hp
+  simp only [hr] at g
+  obtain ⟨g0, g1, g2, g3⟩ := g
+  subst g0
+  exact ⟨g1, g2, g3⟩
+
+/-! ## opstamps -/
+
+/-- events that return the stamp they draw -/
+def stampedApi : Event α → Bool
+  | .add _ => true
+  | .del _ => true
+  | .batch _ => true
+  | .commit _ => true
+  | .prepare => true
+  | _ => false
+
+/-- events that do not move the stamper backwards (all but `delete_all_documents`, which reverts
+it, and `rollback`, which restarts it at the last commit) -/
+def keepsStamper : Event α → Bool
+  | .deleteAll => false
+  | .rollback => false
+  | _ => true
+
+theorem C02_step_opstamps (s s' : WState α) (e : Event α) (r : Nat) (h : step s e = some (s', r)) :
+    (keepsStamper e = true → s.stamper ≤ s'.stamper)
+    ∧ (stampedApi e = true → s.stamper ≤ r ∧ r < s'.stamper) := by
+  cases e with
+  | add d => simp only [step, Option.some.injEq, Prod.mk.injEq] at h; obtain ⟨rfl, rfl⟩ := h; simp
+  | del q => simp only [step, Option.some.injEq, Prod.mk.injEq] at h; obtain ⟨rfl, rfl⟩ := h; simp
+  | batch items =>
+    simp only [step, batch_fold, List.nil_append, Option.some.injEq, Prod.mk.injEq] at h
+    obtain ⟨rfl, rfl⟩ := h
+    simp; omega
+  | deleteAll => simp [keepsStamper, stampedApi]
+  | rollback => simp [keepsStamper, stampedApi]
+  | commit p =>
+    simp only [step] at h
+    split at h
+    · simp only [Option.some.injEq, Prod.mk.injEq] at h; obtain ⟨rfl, rfl⟩ := h; simp [saveMetas]
+    · cases h
+  | prepare =>
+    simp only [step] at h
+    split at h
+    · simp only [Option.some.injEq, Prod.mk.injEq] at h; obtain ⟨rfl, rfl⟩ := h; simp
+    · cases h
+  | recv w =>
+    refine ⟨fun _ => ?_, by simp [stampedApi]⟩
+    simp only [step] at h
+    split at h
+    · split at h
+      · split at h
+        · cases h
+        · simp only [Option.some.injEq, Prod.mk.injEq] at h; obtain ⟨rfl, _⟩ := h; exact Nat.le_refl _
+      · simp only [Option.some.injEq, Prod.mk.injEq] at h; obtain ⟨rfl, _⟩ := h; exact Nat.le_refl _
+    · cases h
+  | cut w =>
+    refine ⟨fun _ => ?_, by simp [stampedApi]⟩
+    simp only [step] at h
+    split at h
+    · split at h
+      · simp only [Option.some.injEq, Prod.mk.injEq] at h; obtain ⟨rfl, _⟩ := h; exact Nat.le_refl _
+      · cases h
+    · cases h
+  | register =>
+    refine ⟨fun _ => ?_, by simp [stampedApi]⟩
+    simp only [step] at h
+    split at h
+    · simp only [Option.some.injEq, Prod.mk.injEq] at h; obtain ⟨rfl, _⟩ := h; exact Nat.le_refl _
+    · cases h
+  | tick => simp only [step, Option.some.injEq, Prod.mk.injEq] at h; obtain ⟨rfl, _⟩ := h; simp [stampedApi]
+  | flush => simp only [step, Option.some.injEq, Prod.mk.injEq] at h; obtain ⟨rfl, _⟩ := h; simp [stampedApi]
+  | mergeStart ids policy =>
+    refine ⟨fun _ => ?_, by simp [stampedApi]⟩
+    simp only [step] at h
+    split at h
+    · cases h
+    · split at h
+      · simp only [Option.some.injEq, Prod.mk.injEq] at h; obtain ⟨rfl, _⟩ := h
+        show s.stamper ≤ s.stamper + 1; omega
+      · split at h
+        · simp only [Option.some.injEq, Prod.mk.injEq] at h; obtain ⟨rfl, _⟩ := h; exact Nat.le_refl _
+        · cases h
+  | mergeEnd k =>
+    refine ⟨fun _ => ?_, by simp [stampedApi]⟩
+    simp only [step] at h
+    split at h
+    · cases h
+    · split at h
+      · simp only [Option.some.injEq, Prod.mk.injEq] at h; obtain ⟨rfl, _⟩ := h; exact Nat.le_refl _
+      · split at h
+        · simp only [Option.some.injEq, Prod.mk.injEq] at h; obtain ⟨rfl, _⟩ := h; exact Nat.le_refl _
+        · simp only [Option.some.injEq, Prod.mk.injEq] at h; obtain ⟨rfl, _⟩ := h; exact Nat.le_refl _
+
+theorem C02_run_stamper_mono (s s' : WState α) (es : List (Event α)) (h : run s es = some s')
+    (hk : es.all keepsStamper = true) : s.stamper ≤ s'.stamper := by
+  induction es generalizing s with
+  | nil => simp only [run, Option.some.injEq] at h; subst h; exact Nat.le_refl _
+  | cons e es ih =>
+    simp only [List.all_cons, Bool.and_eq_true] at hk
+    simp only [run] at h
+    split at h
+    · rename_i s1 r hs
+      exact Nat.le_trans ((C02_step_opstamps s s1 e r hs).1 hk.1) (ih s1 h hk.2)
+    · cases h
+
+/-- **C02_returned_opstamps_increase.**  For any number of workers, any schedule of the internal
+events and any merges: between two API calls that return a stamp (`add_document`, `delete_*`,
+`run`, `prepare_commit`, `commit`), if no `delete_all_documents` and no `rollback` happens in
+between, the later call returns a strictly larger opstamp - whatever happened before (re-opened
+writer included).  Together with `C02_opstamp_monotone_partial`: the opstamp of a commit exceeds
+that of every operation it includes and is what `meta.json` holds. -/
+theorem C02_returned_opstamps_increase (s s1 s2 s3 : WState α) (e1 e2 : Event α) (mid : List (Event α)) (r1 r2 : Nat)
+    (h1 : step s e1 = some (s1, r1)) (hmid : run s1 mid = some s2) (h2 : step s2 e2 = some (s3, r2))
+    (hs1 : stampedApi e1 = true) (hs2 : stampedApi e2 = true) (hk : mid.all keepsStamper = true) : r1 < r2 := by
+  have a := (C02_step_opstamps s s1 e1 r1 h1).2 hs1
+  have b := C02_run_stamper_mono s1 s2 mid hmid hk
+  have c := (C02_step_opstamps s2 s3 e2 r2 h2).2 hs2
+  omega
+
 /-! ## rollback -/
 
 /-- **C02_rollback_restores**: after `rollback` (also `abort`, drop + reopen) the writer is a new
@@ -290,6 +547,12 @@ theorem C02_batch_one_unit (s s' : WState α) (w r : Nat) (h : step s (.recv w) 
   · cases h
 
 /-! ## the three (four) counter-examples: the unrestricted statement is false
+
+Status of the full statement: every clause of the property is proved for all event sequences
+under the two hypotheses of `C02_commit_refines_replay_partial` (merges, any number of workers,
+reopen included); what remains outside is exactly what the counter-examples below (and F9, F10,
+which need a second OS thread: `C02_producer_race_counterexample` and the harness) show to be false
+in the code, plus the sub-steps of concurrent producers, which the model takes as atomic.
 
 `C02_full` — *for every event sequence `es` with `run (WState.init n) es = some s`:
 `published s` is a permutation of `(replay (history es)).committed`, and
@@ -372,6 +635,17 @@ example :
     (run (WState.init 1) ([.add 1, .recv 0, .cut 0, .register, .add 2, .recv 0, .cut 0, .register,
       .mergeStart [0, 1] true, .commit none, .mergeEnd 0, .rollback, .deleteAll, .add 3] : List (Event Nat))).map
       (fun s => (published s, s.merges.length, s.committed.length)) = some ([1, 2], 0, 0) := by decide
+-- returned opstamps on a run with a re-opened writer, a tick and a merge in between
+example :
+    let s0 : WState Nat := WState.init 2
+    (do let (s1, r1) ← step s0 (.add 1)
+        let s2 ← run s1 [.recv 0, .tick, .cut 0, .register, .add 2, .recv 1, .cut 1, .register, .mergeStart [0, 1] true]
+        let (_, r2) ← step s2 (.commit none)
+        pure (r1, r2)) = some (0, 4) := by decide
+-- `CommittedAt` is satisfiable with a delete on each side of the cursor and a delete_opstamp
+example : CommittedAt ([⟨3, fun _ => true⟩, ⟨9, fun _ => false⟩] : List (DelOp Nat)) 5
+    ({ id := 0, docs := [⟨1, 1, false⟩], cursor := 1, delOp := some 5, metaDead := 1 } : Seg Nat) := by
+  constructor <;> intro del hd <;> simp at hd <;> subst hd <;> decide
 example : cleanState (WState.init 2 : WState Nat) := by
   refine ⟨rfl, rfl, rfl, rfl, ?_⟩
   intro w hw
@@ -382,6 +656,6 @@ example : cleanFrom (CState.init : CState Nat) [some (.add 1), some (.commit non
 example : processed 5 [⟨3, fun d => d == (1 : Nat)⟩, ⟨5, fun _ => true⟩, ⟨6, fun _ => true⟩] ≠ [] := by
   simp [processed]
 example : ∃ s : WState Nat, s.metas.segs ≠ [] ∧ s.channel ≠ [] :=
-  ⟨{ WState.init 1 with channel := [[(1, 0)]], metas := ⟨0, none, [⟨0, [⟨1, 0, true⟩], 0⟩]⟩ }, by simp, by simp⟩
+  ⟨{ WState.init 1 with channel := [[(1, 0)]], metas := ⟨0, none, [{ id := 0, docs := [⟨1, 0, true⟩], cursor := 0 }]⟩ }, by simp, by simp⟩
 
 end TantivyModel.C02
